@@ -3,7 +3,7 @@ CONSTANTS
   Procs <- P2
   Threads <- T2
   Calls = 2
-  Draws = 2
+  Draws = 1
   Mode = "entropy"
 INVARIANTS TypeOK NoReuse FreshGenerators
 CHECK_DEADLOCK FALSE
